@@ -10,6 +10,15 @@ namespace Dds
 
 abbrev Segs := List String
 
+/-- `str.split(sep)` on characters (structural, so that the kernel can evaluate it) -/
+def splitChars (sep : Char) : List Char → List Char → List (List Char)
+  | [], cur => [cur.reverse]
+  | c :: cs, cur => if c = sep then cur.reverse :: splitChars sep cs [] else splitChars sep cs (c :: cur)
+
+/-- the non-empty segments of a path string: `[s for s in p.split("/") if s]` -/
+def pathSegs (p : String) : Segs :=
+  ((splitChars '/' p.toList []).map String.ofList).filter (· ≠ "")
+
 /-- insertion into a sorted list of strings, dropping duplicates -/
 def insertStr (s : String) : List String → List String
   | [] => [s]
